@@ -11,16 +11,18 @@ import types
 
 PROP = "C06"
 LEAN_MODULE = "Ztr.Props.C06Run"
-LEAN_DEPS = ["Ztr.Props.C06", "Ztr.Props.C06Dots"]
+LEAN_DEPS = ["Ztr.Props.C06", "Ztr.Props.C06Dots", "Ztr.Props.C06Order"]
 THEOREMS = ["Ztr.Sched.C06_at_most_N", "Ztr.Sched.C06_progress", "Ztr.Sched.C06_blocks_in_order",
             "Ztr.Sched.C06_prints_all_done", "Ztr.Runner.C06_layer_same_in_every_process",
             "Ztr.Runner.C06_whole_run", "Ztr.Runner.C06_equals_sequential", "Ztr.Channel.C06_dots_exact",
-            "Ztr.Channel.C06_keeps_all_but_dots"]
+            "Ztr.Channel.C06_keeps_all_but_dots", "Ztr.Sched.printed_eq", "Ztr.Sched.C06_outcomes_in_layer_order",
+            "Ztr.Sched.C06_outcomes_complete", "Ztr.Sched.C06_D46_witness"]
 RULE = ("k = 1..4 layers (quick: all k! completion orders for k <= 3, sampled for k = 4; thorough: all orders for "
         "k <= 5), N in 1..k+1, the three result collectors (verbosity 0 / 2 / N = 1), 0-3 output lines per child plus "
-        "keep-alive dot lines; the real resume_tests runs in a thread against fake children released in the chosen "
+        "keep-alive dot lines and 0-3 reported failures/errors per child (handed over when the child is through); the "
+        "real resume_tests runs in a thread against fake children released in the chosen "
         "order; observed: the parent's stdout (blocks), the number of simultaneously alive children, the returned "
-        "total. Non-trivial = k >= 2 and a completion order different from the layer order; distinct by (k, N, order, "
+        "total, the run's failure and error lists. Non-trivial = k >= 2 and a completion order different from the layer order; distinct by (k, N, order, "
         "collector)")
 ASSUMPTIONS = ["that a dead thread implies a reaped child (kill + communicate in finally) and the 10 ms polling are runtime",
                "equality of tests/outcomes with the sequential run is covered by the world runs of C02/C03/C12 with -j N",
@@ -51,6 +53,9 @@ class SlowRaw(io.RawIOBase):
         return len(b)
 
 
+OUTCOME = 10 ** 6      # line tokens from here on are outcomes (even: a failure, odd: an error), not output
+
+
 def real_run(k, n, order, verbose, lines, dots, late=None):
     from zope.testrunner import runner
     names = ["wl.L%d" % i for i in range(k)]
@@ -68,11 +73,18 @@ def real_run(k, n, order, verbose, lines, dots, late=None):
             stat["start_order"].append(i)
         try:
             for j, ln in enumerate(lines[i]):
+                if ln >= OUTCOME:
+                    continue
                 if dots and j == 0:
                     result.write(b"...\n")
                 result.write(("LINE %d %d\n" % (i, ln)).encode())
             started[i].set()
             gates[i].wait(30)
+            # what the layer subprocess reported (tokens >= OUTCOME stand for failing / erroring tests): handed over when
+            # the child is through - in completion order, as the real worker threads do
+            for ln in lines[i]:
+                if ln >= OUTCOME:
+                    (failures if ln % 2 == 0 else errors).append(("T%d" % ln, None))
             if late:
                 # finish exactly while the parent is busy writing this child's earlier lines (if it ever does
                 # that before the child is done), appending the last lines of the layer
@@ -97,9 +109,11 @@ def real_run(k, n, order, verbose, lines, dots, late=None):
     runner.spawn_layer_in_subprocess = fake_spawn
     sys.stdout = out
 
+    run_failures, run_errors = [], []
+
     def target():
         try:
-            res["total"] = runner.resume_tests(None, options, [], layers, [], [], [], None)
+            res["total"] = runner.resume_tests(None, options, [], layers, run_failures, run_errors, [], None)
         except BaseException as e:  # noqa: BLE001
             res["exc"] = repr(e)
 
@@ -150,6 +164,8 @@ def real_run(k, n, order, verbose, lines, dots, late=None):
         sys.stdout = old_stdout
     out.flush()
     res["stdout"] = (bytes(raw.data) if late else raw.getvalue()).decode("utf-8", "replace")
+    res["failures"] = [int(n[1:]) for n, _ in run_failures]
+    res["errors"] = [int(n[1:]) for n, _ in run_errors]
     res.update(stat)
     return res
 
@@ -201,6 +217,10 @@ def run(ctx):
     for k, n, order in cases:
         verbose = rng.choice([0, 2])
         lines = [[rng.randint(1, 999) for _ in range(rng.choice([0, 1, 2, 3]))] for _ in range(k)]
+        for i_ in range(k):
+            # failures and errors the layer reports (0..3), between its lines
+            for _ in range(rng.choice([0, 1, 1, 2, 3])):
+                lines[i_].insert(rng.randint(0, len(lines[i_])), OUTCOME + 10 * rng.randint(0, 9999) + rng.choice([0, 1]))
         dots = rng.random() < 0.5
         full.append((k, n, order, verbose, lines, dots))
     import concurrent.futures
@@ -259,10 +279,20 @@ def run(ctx):
             continue
         # blocks: the LINE lines must appear grouped per child, in layer order, complete
         got = [(int(a), int(b)) for a, b in re.findall(r"LINE (\d+) (\d+)", res["stdout"])]
-        want = [(i, ln) for i in range(k) for ln in lines[i]]
+        want = [(i, ln) for i in range(k) for ln in lines[i] if ln < OUTCOME]
         if got != want:
             ctx.violation("parent output lines %r, expected contiguous blocks in layer order %r" % (got, want), case,
                           signature="C06:order")
+            continue
+        # the lists of the run: the layers' failures and errors, layer by layer in layer order, whatever order the
+        # children finished in (C06_outcomes_in_layer_order / C06_outcomes_complete)
+        want_f = [ln for i in range(k) for ln in lines[i] if ln >= OUTCOME and ln % 2 == 0]
+        want_e = [ln for i in range(k) for ln in lines[i] if ln >= OUTCOME and ln % 2 == 1]
+        case["real"]["failures"], case["real"]["errors"] = res["failures"], res["errors"]
+        if res["failures"] != want_f or res["errors"] != want_e:
+            ctx.violation("finish order %r: the run's failure list is %r, its error list %r; the layers reported %r and %r "
+                          "(layer order)" % (order, res["failures"], res["errors"], want_f, want_e), case,
+                          signature="C06:outcome-order")
             continue
         if res["total"] != sum(10 + i for i in range(k)):
             ctx.violation("returned total %r, children ran %r" % (res["total"], sum(10 + i for i in range(k))), case,
@@ -271,8 +301,13 @@ def run(ctx):
         if "error" in ans:
             ctx.drift("sched", "driver error %s" % ans["error"], case)
             continue
-        mgot = [(i, ln) for i, ls in ans["printed"] for ln in ls]
-        if mgot != got or ans["maxRunning"] > n or not ans["finished"]:
+        mall = [(i, ln) for i, ls in ans["printed"] for ln in ls]
+        mgot = [(i, ln) for i, ln in mall if ln < OUTCOME]
+        mf = [ln for i, ln in mall if ln >= OUTCOME and ln % 2 == 0]
+        me = [ln for i, ln in mall if ln >= OUTCOME and ln % 2 == 1]
+        if mf != res["failures"] or me != res["errors"]:
+            ctx.drift("sched.outcomes", "model merges failures %r errors %r, real %r %r" % (mf, me, res["failures"], res["errors"]), case)
+        elif mgot != got or ans["maxRunning"] > n or not ans["finished"]:
             ctx.drift("sched", "model printed %r (max running %r, finished %r), real %r" % (
                 mgot, ans["maxRunning"], ans["finished"], got), case)
 
